@@ -43,7 +43,7 @@ pub proof fn lemma_cfg_progress_ensure<'a>(st: CfgSt<'a>, subs: Map<Tid, Term<Su
     ensures cfg_progress(st, cfg_ensure(st, subs, tid, f).0, subs),
 {
     if !st.jt.contains_key((tid, f.tid)) {
-        broadcast use axiom_cfg_find_block;
+        broadcast use lemma_cfg_find_block_ok;
         let b = cfg_find_block::<'a>(subs, tid)->Some_0;
         lemma_cfg_universe_contains(subs, *b, *f);
         lemma_cfg_unreg_insert(subs, st.jt, (b.tid, f.tid), (cfg_ni(st.nodes.len() as int), cfg_ni(st.nodes.len() as int + 1)));
